@@ -5,8 +5,8 @@ package electreIII
 
 import (
 	"github.com/Azbesciak/RealDecisionMaker/lib/model"
-	vh "github.com/Azbesciak/RealDecisionMaker/lib/zz_vh"
 	rt "github.com/Azbesciak/RealDecisionMaker/lib/zz_verifrt"
+	vh "github.com/Azbesciak/RealDecisionMaker/lib/zz_vh"
 )
 
 //verif:bounds C06 HC06_distillation_invariance: order invariance and the identical-alternatives clause at the distillation level (where they are decided): RankAscending / RankDescending on an ARBITRARY symbolic credibility matrix of n=3 alternatives (off-diagonal entries free in [0,1]; optionally alternatives b and c identical: equal rows and columns) and on the same matrix with the alternatives listed in another order (reversed; thorough tier also rotated): every alternative gets the same two indices, identical alternatives get equal indices; the matrix handed in is not modified
